@@ -33,8 +33,8 @@ class A(Adapter):
         self._plans: Dict[bytes, List[List[int]]] = {}
 
     def configs(self):
-        base = [cfg("n3s100", True, n=3, scr=100, tl=None), cfg("n2s3", True, n=2, scr=3, tl=None), cfg("n4s10", True, n=4, scr=10, tl=None),
-                cfg("n5s0", n=5, scr=0, tl=None)]
+        base = [cfg("n3s100", True, n=3, scr=100, tl=None), cfg("n2s2", True, n=2, scr=2, tl=None), cfg("n4s10", True, n=4, scr=10, tl=None),
+                cfg("n5s0", n=5, scr=0, tl=None), cfg("n2s3", n=2, scr=3, tl=None)]
         return cross_tl(base, [1, 2, 3, 7])
 
     def build(self, c):
